@@ -236,10 +236,80 @@ def check_praj_accumulation(chk, quick):
     chk.part('praj_accumulation', batches=tot)
 
 
+CO_COLS = ['epsilon_min', 'epsilon_max', 'epsilon_min_LF', 'epsilon_max_LF', 'epsilon_open_ein', 'epsilon_open', 'epsilon_open_alt', 'epsilon_min_alt_SP', 'epsilon_max_alt_SP']
+
+
+def crack_opening_traces(job):
+    """One assessment -> one trace per assessment point: the stored crack-opening columns, strains as dense ranks (every decision is a comparison)."""
+    base, scale, ratios, G = job
+    seq = [BASE_SCALE[base] * scale * v for v in BASES[base]]
+    res = assess.full(seq, ratios, {'R_m': 400.0}, G=G)
+    c = res['P_RAJ_collective']
+    ap = res['assessment_parameters']
+    S_F = 0.5 * (0.002 ** float(ap['n_prime']) * float(ap['K_prime']) + float(ap['R_m']))
+    out = []
+    for p in range(len(ratios)):
+        d = c.xs(p, level='assessment_point_index')
+        vals = sorted(set([0.0] + [float(x) for col in CO_COLS for x in d[col].to_numpy()]))
+        rk = {v: i for i, v in enumerate(vals)}
+        steps = []
+        for _, r in d.iterrows():
+            steps.append({'emin': rk[float(r.epsilon_min)], 'emax': rk[float(r.epsilon_max)], 'eminLF': rk[float(r.epsilon_min_LF)], 'emaxLF': rk[float(r.epsilon_max_LF)],
+                          'ein': rk[float(r.epsilon_open_ein)], 'saLarge': bool(r.S_a >= 0.4 * S_F), 'ninf': bool(r.D == 0.0),
+                          'case': str(r.case_name), 'eo': rk[float(r.epsilon_open)], 'eoAltOut': rk[float(r.epsilon_open_alt)],
+                          'spMinOut': rk[float(r.epsilon_min_alt_SP)], 'spMaxOut': rk[float(r.epsilon_max_alt_SP)], 'dmg': bool(r.is_damage_in_current_hysteresis)})
+        out.append(({'zero': rk[0.0], 'steps': steps}, {'base_sequence': base, 'scale': scale, 'ratios': list(ratios), 'G': G, 'point': p}))
+    return out
+
+
+def check_crack_opening(chk, quick):
+    jobs = []
+    for base in (1, 2, 3):
+        for scale in ((1.0,) if quick else (1.0, 1.6)):
+            jobs += [(base, scale, (1.0,), None), (base, scale, (1.0, 0.5, 1.2), None), (base, scale, (0.2, 1.0), [3.0, 2.0 / 15]), (base, scale, (3.0, 1.0, 0.5), [0.8, 2.0 / 15, 3.0])]
+    traces, meta = [], []
+    for res in par.pmap(_co_safe, jobs, chunksize=1):
+        if isinstance(res, str):
+            chk.violation('the P_RAJ assessment raised: ' + res[:300], {}, part='crack_opening')
+            continue
+        for tr, info in res:
+            traces.append(tr)
+            meta.append(info)
+    out = tlc.validate_traces(os.path.join(SPEC, 'fkmnl', 'Trace_CrackOpening.tla'), os.path.join(SPEC, 'fkmnl', 'Trace_CrackOpening.cfg'), traces, 'c10_co', nsplit=4)
+    chk.cov['states'] += out['states']
+    chk.cov['transitions'] += out['generated']
+    for e in out['errors']:
+        chk.machinery.append('trace validation (crack opening): ' + e)
+    acc, cases = 0, set()
+    for tr, info, v in zip(traces, meta, out['verdicts']):
+        chk.evals(len(tr['steps']))
+        if v is None:
+            if not out['errors']:
+                chk.machinery.append('no verdict for crack-opening trace %s' % (info,))
+            continue
+        if v[1] == 'ok':
+            acc += 1
+            cases |= {s['case'] for s in tr['steps']}
+            chk.nontrivial(('crack_opening', info['base_sequence'], info['scale'], tuple(info['ratios']), info['point']))
+        else:
+            chk.violation('crack-opening history of a point rejected by the specification: clause %s at hysteresis %d' % (v[1], v[0]), info, None, tr['steps'][v[0] - 1], part='crack_opening')
+    chk.cov['traces_validated_against_impl'] += acc
+    chk.part('crack_opening', point_histories=len(traces), accepted=acc, cases_seen=sorted(cases), tlc_states=out['states'])
+
+
+def _co_safe(job):
+    try:
+        return crack_opening_traces(job)
+    except Exception as ex:
+        import traceback
+        return '%r %s' % (ex, traceback.format_exc()[-400:])
+
+
 def run(chk):
     quick = chk.tier == 'quick'
     probe_findings(chk)
     check_praj_accumulation(chk, quick)
+    check_crack_opening(chk, quick)
     cfgname = 'MC_Assessment_quick.cfg' if quick else 'MC_Assessment_thorough.cfg'
     res = tlc.run(TLA, os.path.join(SPEC, 'assessment', cfgname), dump=True, timeout=3000, heap='12g')
     chk.tlc(cfgname, res, 'configuration graph of the metamorphic actions; every state is one walk (hist)')
